@@ -4,7 +4,7 @@ OWNED: (regex on the clause key, [properties]) -- first match wins; obligations 
 property listed in their contract's `props`.
 """
 OWNED = [
-    (r"Sequence\._add/ensures\.(phase-is-programmed-plus-reference|starts-after-latest-phase-shift-of-targets|targets-marked-used|post-phase-shift-applied|BRINV)", ["C07"]),
+    (r"Sequence\._add/ensures\.(assert:targets-share-one-reference|assert:phase-uses-some-target's-reference|phase-is-programmed-plus-reference|starts-after-latest-phase-shift-of-targets|targets-marked-used|post-phase-shift-applied|BRINV)", ["C07"]),
     (r"Sequence\._add/ensures\.(scheduled-duration-is-validated|accepted-unchanged-if-clock-multiple|within-limits-if-unchanged)", ["C01"]),
     (r"Sequence\._add/ensures\.appends-a-pulse-slot-on-the-same-targets", ["C02"]),
     (r"Sequence\._validate_and_adjust_pulse/ensures\.(phase-is-programmed-plus-reference|post-phase-shift-kept)", ["C07"]),
@@ -33,6 +33,10 @@ PROPS = {
                 assumptions=["A-EOMBW EOM rise time <= channel rise time", "A-DICT-ORDER iteration order of the schedule is unconstrained"]),
     "C07": dict(lemmas=["L-phase-additive"], not_decided=["rotation by phi about z on the emulated qubit (QuTiP ODE)", "EOM drift-corrected adds: phase clauses are stated for drift-free adds"],
                 assumptions=["A-PI 3 < pi < 4 (only positivity is used)", "SLM-mask DMM side effect of _add is excluded by precondition (no pending SLM mask DMM)"]),
+    "C13": dict(lemmas=[], not_decided=["acceptance direction (mode allows => returns) beyond the guards", "declare_channel / config_slm_mask typestate (bounded stand-in only)"],
+                assumptions=[]),
+    "C15": dict(lemmas=[], not_decided=["emulated populations under drift correction (QuTiP)", "closest off-detuning option (numpy argmin; bounded stand-in)"],
+                assumptions=["A-EOMBW"]),
     "C10": dict(lemmas=[], not_decided=["phase-jump clause with phase-drift correction (EOM) is stated for drift-free adds only"], assumptions=[]),
     "C09": dict(only=r"/(exc_safe|frame)\.", lemmas=[], not_decided=["replay determinism as a theorem; draw()"], assumptions=[]),
 }
